@@ -46,6 +46,11 @@ end Kind
 def parseWord (s : String) : Option (List Kind) :=
   if s == "-" || s == "" then some [] else (s.splitOn ",").mapM Kind.ofToken
 
+/-- parse `K,K+K,...`: each comma-separated item is one record, `+` joins the handshake messages
+coalesced into it -/
+def parseRecords (s : String) : Option (List (List Kind)) :=
+  if s == "-" || s == "" then some [] else (s.splitOn ",").mapM (fun r => (r.splitOn "+").mapM Kind.ofToken)
+
 def showWord (w : List Kind) : String :=
   if w.isEmpty then "-" else ",".intercalate (w.map Kind.token)
 
